@@ -40,6 +40,12 @@ checks["C12"] = dict(
    level=("exploration","Every run delivers a stored document (fixtures, synthetic regular/index/Hermes maps from an independent emitter, non-maps, invalid, optionally damaged at rest) with a generated junk header through a seeded transport and reader (1-byte reads, splits inside the header, inside \\r\\n, exactly at the header end, around BufReader's 8192, EINTR, one hard error, dropped/duplicated/swapped chunks, bit flips, early EOF) into a reader entry point; the outcome must equal the slice entry point on the delivered bytes (both Err, or equal observational dumps), is_sourcemap must equal is_sourcemap_slice, decode_data_url(base64(D')) must equal decode_slice(D'), and for clean headers both must match a small header model (LF/CRLF skipped, bare CR rejected). A systematic single- and double-split sweep over small documents is the floor under the seeded search; boundary-cell probes must all be non-zero.","§4.3"),
    note="Trusts the observational dump (public accessors only), the harness's header model and base64 encoder. Error kinds are not compared. Interrupted is treated as transparent per the Read contract.",
  )
+checks["C05"] = dict(
+   engine="sim_io",
+   technique="deterministic simulation with fault injection: seeded at-rest damage (bit flips, torn/zeroed/garbage/duplicated/moved sectors, stale tails, digit substitutions) plus transport faults through SimReader into every decoding/detection entry point, post-decode workload under panic/allocation/hang monitors in child processes",
+   level=("fault_enumeration","For documents that were well-formed when written (fixtures, synthetic regular/index/Hermes maps, scripts with sourceMappingURL references) and then damaged at rest by 0..3 seeded faults and/or in flight (chunking, EINTR, one hard error, drop/dup/swap/flip, early EOF), every decoding and detection entry point (slice, reader, data URL, reference discovery) must return without panic, arithmetic overflow (overflow-checks on), unbounded allocation (counting allocator: 64 MiB + 1024 x input) or endless reader polling (deterministic read budget; wall-clock backstop per run confirmed by a solitary re-run), and every map that comes back must survive the seeded post-decode workload (all accessors, lookups, formatters, function-name resolution, rewrite under the in-memory options, flatten, serialisation below the 100000-line bound, and the serialised form must decode again). Runs execute in child processes so that aborts and stack overflows are attributed to the announced run. Claimed for the fault-reachable part of the statement only; adversarially constructed inputs are a fuzzing target, not a fault model (DESIGN.md §4.4).","§4.4"),
+   note="Trusts the monitors (panic hook + catch_unwind, counting GlobalAlloc, SimReader budgets) and the parent/child attribution protocol. Says nothing about what a damaged document decodes to.",
+ )
 order = ["C05","C12","C15","C16"]
 m = {
  "version":1,
@@ -52,7 +58,7 @@ m = {
    "add_only":True},
  "engines":[
    {"name":"sim_sched","path":"/verif/simsched","serves_properties":["C16"],"kind_free_text":"shuttle 0.9.3 runtime driven by the harness's own seeded Scheduler (uniform / sticky / PCT-like / replay), RefView oracle, workload+schedule minimiser"},
-   {"name":"sim_io","path":"/verif/sim","serves_properties":["C12","C15"],"kind_free_text":"seeded simulator over the Read seam and stored bytes (SimDisk/SimTransport/SimReader) and single-client SourceView histories"},
+   {"name":"sim_io","path":"/verif/sim","serves_properties":["C05","C12","C15"],"kind_free_text":"seeded simulator over the Read seam and stored bytes (SimDisk/SimTransport/SimReader) and single-client SourceView histories"},
  ],
  "checks":[],
  "notes":"Deterministic simulation with fault injection. One integer (VERIF_SEED, default 20261001) decides every run; exit 0 held / 1 VIOLATION / 2 harness error. Repairs of genuine defects are logged in KNOWN_FINDINGS.txt.",
